@@ -103,6 +103,11 @@ def run_cases(binary, cases, ver, chunk=150):
     return out
 
 
+# long lines without blanks: the writer has to fold hard at the target length (2040) - what stands there matters
+HARDFOLD = ["a" * 2040 + ";" + "a" * 959, "a" * 2039 + ";" + "a" * 960, "a" * 2041 + ";" + "a" * 958, "a" * 2040 + ";;;" + "a" * 2037 + ";" + "a" * 500,
+            "a" * 2039 + "\U0001d11e" * 4 + "a" * 900, "a" * 2040 + "\\" + "a" * 900, "a" * 2040 + "'" + "a" * 900, "a" * 2034 + " " + "a" * 900, "a" * 4090 + ";" + "a" * 30]
+
+
 def descriptor_strings(tier, rnd):
     """strings built from runs of significant characters with run lengths around the line limit and the fold target"""
     classes = {"a": "a", "sp": " ", "sq": "'", "dq": '"', "semi": ";", "bsl": "\\", "nl": "\n", "u4": "𝄞", "br": "]", "hash": "#", "tab": "\t"}
@@ -132,7 +137,9 @@ def descriptor_strings(tier, rnd):
                 out.append("a" * 5 + classes[c1] * 2 + "\n" + "b" * n + classes[c3] + "\n" + classes[c3] * 3)
     extra = ["", "'''", '"""', "'''\"\"\"", "a'''b\"\"\"c", "\n;", "x\n;y", ";\n;", "\\\n", "a\\\n", "a\\  \nb", "> \\\nx", "\\\\\n", "ab\\", "a\n\nb", "\n", "\n\n", " \n ", "a \nb ", "?", ".", "1.5(2)", "data_x", "loop_", "_x", "$", "[a]",
              "a'b", 'a"b', "a' b", "'a", "a'", '"a', 'a"', "'\n", "\n'", "''\n'", "a\n'''", '"""\n', "x'''\ny\"\"\"\nz", ("a" * 2047 + "\n") * 3, ("ab " * 700), "𝄞" * 1030, ("é" * 2048), ("é" * 2049), "a" * 2041 + "\n;b", ";" * 2050, ";" * 2047,
-             "'" * 2046, '"' * 2047, "'\"" * 1030, "\\" * 2049, "a" * 2040 + "\\", " " * 2049, "a " * 1030 + "\\", "\t" * 5 + "a" * 2044]
+             "'" * 2046, '"' * 2047, "'\"" * 1030, "\\" * 2049, "a" * 2040 + "\\", " " * 2049, "a " * 1030 + "\\", "\t" * 5 + "a" * 2044,
+             # long lines without blanks: the writer has to fold hard at the target length (2040) - what stands there matters
+             ] + HARDFOLD
     out += extra
     seen, res = set(), []
     for s in out:
@@ -144,6 +151,41 @@ def descriptor_strings(tier, rnd):
         rnd.shuffle(rest)
         res = extra + rest[:900 - len(extra)]
     return res
+
+
+RLNAMES = {"a": "a", "b": "b", " ": "sp", "'": "sq", '"': "dq", ";": "semi", "\\": "bsl", "\n": "nl", "\U0001d11e": "u4", "]": "br", "#": "hash", "\t": "tab", "\u00e9": "e9"}
+
+
+def run_lengths(s, maxruns=8):
+    """compact, stable description of a descriptor string: runs of equal characters"""
+    runs = []
+    for ch in s:
+        if runs and runs[-1][0] == ch:
+            runs[-1][1] += 1
+        else:
+            runs.append([ch, 1])
+    parts = ["%s%d" % (RLNAMES.get(c, "x%04x" % ord(c)), n) for c, n in runs[:maxruns]]
+    if len(runs) > maxruns:
+        parts.append("+%druns/%dchars" % (len(runs) - maxruns, len(s)))
+    return ".".join(parts) or "empty"
+
+
+def strings_in(x):
+    """all text members inside a command list"""
+    out = []
+    if isinstance(x, dict):
+        for k, v in x.items():
+            if k == "t" and isinstance(v, str):
+                out.append(v)
+            else:
+                out += strings_in(v)
+    elif isinstance(x, list):
+        for v in x:
+            if isinstance(v, str):
+                out.append(v)
+            else:
+                out += strings_in(v)
+    return out
 
 
 def api_case(s, pos, idx):
@@ -193,10 +235,10 @@ def run_roundtrip(prop, ver, tier):
     strs = descriptor_strings(tier, rnd)
     positions = ["scalar", "loop", "list", "table", "key", "unquoted", "frame"] if ver == 2 else ["scalar", "loop", "unquoted", "frame", "list"]
     for i, s in enumerate(strs):
-        for pos in (positions if tier != "quick" else [positions[i % len(positions)], positions[(i * 3 + 1) % len(positions)]]):
+        for pos in (positions if (tier != "quick" or s in HARDFOLD) else [positions[i % len(positions)], positions[(i * 3 + 1) % len(positions)]]):
             if pos == "unquoted" and not ("bare" in py_adm(s)[0] or s in ("?", ".")):
                 continue
-            cases.append(("str%d@%s" % (i, pos), api_case(s, pos, i)))
+            cases.append(("str:%s@%s" % (run_lengths(s), pos), api_case(s, pos, i)))
     results = run_cases(binary, cases, ver)
     recs, owners = [], []
     for label, build_cmds, o, err in results:
@@ -249,7 +291,26 @@ def run_roundtrip(prop, ver, tier):
         else:
             why = "re-parsed content is not equivalent"
         pos = label.split("@")[1] if "@" in label else label.split(" ")[1]
-        cls = "near-limit line: " if longest >= 2039 else ""
+        # classes of the open finding: a line within ten characters of the 2048 limit (where the writer's budget for
+        # delimiters / fold markers is wrong), or a run of >= 2039 semicolons (never foldable before a semicolon);
+        # longer lines that fold normally are NOT in the class
+        semis = max([len(m) for m in re.findall(r";+", "\n".join(strings_in(build_cmds)))] or [0])
+        texts = strings_in(build_cmds)
+        lead_semi = any(l.startswith(";") for t in texts for l in t.split("\n"))
+        if 2039 <= longest <= 2049:
+            cls = "near-limit line: "
+        elif semis >= 2039:
+            cls = "near-limit line: semicolon run: "
+        elif longest > 2049 and lead_semi:
+            cls = "near-limit line: folded line that starts with a semicolon: "
+        elif longest > 2049 and pos == "unquoted":
+            cls = "near-limit line: long value marked unquoted: "
+        elif longest > 2040 and pos == "key":
+            cls = "near-limit line: table key longer than a line: "
+        else:
+            cls = ""
+        if os.environ.get("VERIF_DEBUG_RT"):
+            log("RTFAIL %s | %s" % (label, why[:60]))
         rep.violation("%s%s [%s]" % (cls, re.sub(r"[0-9]+", "N", why)[:70], pos), "case %s (longest line %d): %s" % (label, longest, why),
                       {"build": build_cmds if len(json.dumps(build_cmds)) < 30000 else "(large)", "record": {k: v for k, v in r.items() if k not in ("orig", "re")},
                        "orig": r["orig"] if len(json.dumps(r["orig"])) < 6000 else "(large)", "reparsed": r["re"] if len(json.dumps(r["re"])) < 6000 else "(large)"})
